@@ -90,6 +90,9 @@ def unique_def(defs, name):
     v = defs.get(name, [])
     if len(v) == 1 and not isinstance(v[0], tuple):
         return v[0]
+    # several definitions with the same text (`request = event.payload` in each arm of a ladder) are one definition
+    if len(v) > 1 and all(not isinstance(x, tuple) for x in v) and len({norm(x, limit=400) for x in v}) == 1:
+        return v[0]
     return None
 
 
@@ -108,7 +111,10 @@ def resolve_name(expr, defs, depth=4):
 PURE_BUILTINS = {'len', 'isinstance', 'bool', 'int', 'str', 'type', 'id', 'abs', 'min', 'max', 'tuple'}
 
 
-def expand_locals(expr, fnode, depth=3, params=()):
+OBSERVERS = {'full', 'empty', 'qsize', 'is_set', 'is_alive', 'locked'}
+
+
+def expand_locals(expr, fnode, depth=3, params=(), observers=False):
     """a copy of `expr` in which every local name with exactly one (plain) definition in the function is replaced by the defining
     expression, recursively: `head = self.queue.deque[0]; head.signal != X`  ->  `self.queue.deque[0].signal != X`.
     Flow-insensitive: only names defined once, by a call-free expression, are expanded (the value cannot have changed in between
@@ -123,7 +129,9 @@ def expand_locals(expr, fnode, depth=3, params=()):
         def visit_Name(self, n):
             if isinstance(n.ctx, ast.Load) and n.id not in params and self.level < depth:
                 d = unique_def(defs, n.id)
-                if d is not None and isinstance(d, ast.AST) and not any(isinstance(x, ast.Call) and not (isinstance(x.func, ast.Name) and x.func.id in PURE_BUILTINS) for x in ast.walk(d)) \
+                if d is not None and isinstance(d, ast.AST) and not any(isinstance(x, ast.Call) and not (isinstance(x.func, ast.Name) and x.func.id in PURE_BUILTINS)
+                                                                        and not (observers and isinstance(x.func, ast.Attribute) and x.func.attr in OBSERVERS and not x.args and not x.keywords)
+                                                                        for x in ast.walk(d)) \
                         and not any(isinstance(x, ast.Name) and x.id == n.id for x in ast.walk(d)):
                     return X(self.level + 1).visit(copy.deepcopy(d))
             return n
